@@ -35,8 +35,9 @@ NT(cfg) == Len(cfg.tracks)
 NS(cfg) == Len(cfg.streams)
 IsLead(cfg, t) == t = cfg.lead
 Off(cfg, t) == cfg.tracks[t].off
-FirstSegId(cfg) == IF cfg.variant = "ll" THEN 7 ELSE 0
-NumGaps(cfg) == IF cfg.variant = "ll" THEN 7 ELSE 0
+\* 7 gap entries precede the first Low-Latency segment (small models override the number)
+NumGaps(cfg) == IF cfg.variant # "ll" THEN 0 ELSE IF "numGaps" \in DOMAIN cfg THEN cfg.numGaps ELSE 7
+FirstSegId(cfg) == NumGaps(cfg)
 NoEmit(cfg) == "noemit" \in DOMAIN cfg /\ cfg.noemit = 1   \* fragments are not decoded in this trace
 AudioOnlyTS(cfg) == cfg.variant = "mpegts" /\ cfg.tracks[cfg.lead].k = "a"
 MinAU(cfg) == IF "minAU" \in DOMAIN cfg THEN cfg.minAU ELSE 100
@@ -253,7 +254,7 @@ C03Playlist(cfg, m, pl, isLeadStream) ==
   /\ \A i \in 1..Len(pl.ent) : pl.ent[i].gap = 1 => pl.td >= RoundSec(cfg, pl.ent[i].dur)
   /\ \A i \in 1..Len(pl.open) : pl.pt >= CeilMs(cfg, pl.open[i].dur)
   /\ (cfg.variant = "ll") =>
-        /\ pl.hb >= 2 * pl.pt /\ pl.pt > 0                                \* HoldBack
+        /\ pl.hb >= 200 * pl.pt /\ pl.pt > 0                              \* HoldBack (hb in 10 us units, pt in ms)
         /\ pl.su >= 6000 * pl.td                                           \* SkipUntil
         /\ pl.cbr = 1
   /\ isLeadStream =>
